@@ -35,6 +35,21 @@ def corrupt(case, rnd):
     return None
 
 
+def corrupt_new(case, rnd):
+    """Self-test of the new families: the demand on a buffered / file / command destination is raised above what was
+    printed (the observation of THAT destination must reject it); a child ending is declared visible."""
+    c = copy.deepcopy(case)
+    if c.get('fam') == 'cancel' and c['started']:
+        used = [d for d, n in c['printed'].items() if n and d != 'direct']
+        if used:
+            c['expect']['mindelivered'][used[0]] += 2
+            return c
+    if c.get('fam') == 'nocancel' and c.get('outcome') not in (None, 'none'):
+        c['expect']['same'] = False
+        return c
+    return None
+
+
 def corrupt_event(ev, rnd):
     e = copy.deepcopy(ev)
     if e.get('op') == 'end':
@@ -47,32 +62,39 @@ def corrupt_event(ev, rnd):
 
 
 def keep(sc, quick):
-    """Which exported scenarios are replayed.  Dropped in both tiers: steps that only write a buffer out (the state
-    differs, the program does not); buffered standard output together with a child that shares Config.Output (a
-    child's copier and the interpreter writing to one bufio.Writer is C13's matter).  In the quick tier the cross
-    products are thinned: children with an ending (outcome) only in programs that print nothing, a failing wait
-    (0.25 s of real time each, twice) only in the 12 shallowest nestings, and the blocked-in-a-child situations not
-    with output that has already left its buffer."""
+    """Which exported scenarios are replayed.
+    Dropped in both tiers: steps that only write a buffer out (the state differs, the program does not); buffered
+    standard output together with a child that shares Config.Output (a child's copier and the interpreter writing to
+    one bufio.Writer is C13's matter); a command destination together with a blocked-in-child situation (os/exec closes
+    the pipe to a command 250 ms -- WaitDelay -- after its context is done; reaping the killed child first races with
+    that, and nothing in the statement decides the race).
+    In the quick tier the cross products are thinned: programs that run through a child only without other output;
+    children with a given ending (a failing wait costs 0.25 s of real time, twice) only in the 12 shallowest nestings,
+    for both system() and close(); blocked-in-child
+    situations with output to a file only in the 12 shallowest nestings and never with output that has already left
+    its buffer; a command destination only at one poll phase (it is not placed for those anyway)."""
     printed = [d for d, n in sc['printed'].items() if n]
+    shallow = len(sc['kinds']) <= 2
     if sc['fam'] == 'nocancel':
+        waits = sc['waiting'] != 'none' or sc['waited'] != 'none'
         if sc['waited'] == 'none' and sc['outcome'] != 'none':
             return False
-        if 'buffered' in printed and (sc['waiting'] != 'none' or sc['waited'] != 'none'):
+        if 'buffered' in printed and waits:
             return False
         if quick:
-            if sc['outcome'] != 'none' and printed:
+            if waits and printed:
                 return False
-            if sc['outcome'] == 'fail' and len(sc['kinds']) > 2:
-                return False
-            if sc['waited'] != 'none' and sc['outcome'] == 'none' and printed:
+            if sc['outcome'] != 'none' and not shallow:
                 return False
         return True
     if sc['fam'] == 'cancel':
         if sc['waiting'] != 'none':
-            if 'buffered' in printed:
+            if 'buffered' in printed or 'cmd' in printed:
                 return False
-            if quick and printed and printed != ['direct'] and not any(sc['pending'].values()):
+            if quick and 'file' in printed and (not shallow or not sc['pending']['file']):
                 return False
+        elif quick and 'cmd' in printed and sc['opsclass'] != 'mid':
+            return False
         return True
     return True
 
@@ -190,6 +212,17 @@ def run(ctx):
         raise MachineryError(f'Gen_Cancel exported no scenario of some class: {classes}')
     ctx.cov['exhaustive'] = True
     ctx.replay('cases.ndjson', label='gen-cancel', min_cases=300, corrupt=corrupt)
+    # the same demonstration for the new families alone: per-destination delivery, child endings
+    newf = ctx.path('cases_new.ndjson')
+    with open(newf, 'w') as f:
+        for line in open(ctx.path('cases.ndjson')):
+            if corrupt_new(json.loads(line), None) is not None:
+                f.write(line)
+    os.environ['VERIF_C15_DRAIN_S'] = '3'      # a corrupted demand on a command destination is waited for in vain
+    try:
+        ctx.selftest(newf, 'C15', corrupt_new, 'gen-cancel-destinations+endings', k=16)
+    finally:
+        del os.environ['VERIF_C15_DRAIN_S']
     ex = ctx.cov.get('replay_extra', {}).get('gen-cancel', {})
     ctx.log(f'environment-dependent cases: {ex}')
     if not ex.get('wait_failure_judged') or not ex.get('command_destination_judged'):
@@ -202,9 +235,44 @@ def run(ctx):
     ctx.harness(['C15', 'record', '-seed', str(ctx.seed), '-n', str(ntr), '-out', ctx.path('trace.ndjson')])
     rejects = ctx.validate_traces('Trace_Cancel', 'Trace_Cancel', 'trace.ndjson', label='trace-cancel', timeout=1200,
                                   corrupt_event=corrupt_event)
+    if not rejects:
+        trace_delivery_selftest(ctx)
     for r in rejects:
         v = [k for k, b in sorted(r['info'].get('violated', {}).items()) if b]
         ctx.add_failure(f"C15/trace/{'+'.join(v) or 'unexplained'}/recorded",
                         f"recorded run rejected by Trace_Cancel at event {r['line']}: violates {v} "
                         f"(since={r['info'].get('since')}, bound={r['info'].get('bound')})",
                         case=dict(fam='trace', events=r['trace']), expected='the properties of Cancel.tla', observed=r['trace'][r['pos']])
+
+
+def trace_delivery_selftest(ctx):
+    """Binding demonstration for delivery in the trace direction: in a recorded cancelled run that printed n > 0 lines
+    to a buffered / file / command destination before the cancellation, the recorded delivery is lowered to n - 1;
+    Trace_Cancel must reject exactly that event."""
+    events = [json.loads(x) for x in open(ctx.path('trace.ndjson')) if x.strip()]
+    lo = None
+    pick = None
+    for i, e in enumerate(events):
+        if e.get('ev') == 'reset':
+            lo = i
+            pr = None
+        elif e.get('op') == 'print' and e['n'] > 0 and e['dest'] != 'direct':
+            pr = e
+        elif e.get('op') == 'end' and pr is not None and e['result'] == 'ctxerr' and e['delivered'][pr['dest']] >= pr['n']:
+            pick = (lo, i, pr)
+            break
+    if pick is None:
+        ctx.notes.append('trace-cancel: no recorded run with pending output at a buffered destination to corrupt')
+        return
+    lo, i, pr = pick
+    bad = copy.deepcopy(events[lo:i + 1])
+    bad[-1]['delivered'][pr['dest']] = pr['n'] - 1
+    with open(ctx.path('bad_delivery.ndjson'), 'w') as f:
+        for e in bad:
+            f.write(json.dumps(e, separators=(',', ':')) + '\n')
+    rej = ctx._run_trace('Trace_Cancel', 'Trace_Cancel', ctx.path('bad_delivery.ndjson'), 'trace-cancel-delivery-selftest', 600, False)
+    if not any(r['reject'] == len(bad) and r['info']['violated'].get('delivery') for r in rej):
+        raise MachineryError('trace-cancel: binding self-test failed: a recorded delivery lowered below what was printed '
+                             f"to {pr['dest']} was accepted")
+    ctx.cov.setdefault('selftest', []).append({'label': 'trace-cancel-delivery', 'dest': pr['dest'], 'rejected': True})
+    ctx.log(f"trace-cancel: delivery self-test ok (destination {pr['dest']}: {pr['n'] - 1} of {pr['n']} lines rejected)")
